@@ -306,6 +306,36 @@ def _gen_cf(rng, tier):
                 call_kw=call_kw)
 
 
+def _gen_pair(rng, tier):
+    """Two different callables (same __name__ mostly), their config classes derived in some order through Partial[f] and
+    config_for(f); the class last derived for one of them is parsed and called."""
+    def sig():
+        while True:
+            ps = _gen_sig(rng, "cf", 0.08)
+            if not ps or any(p["mut"] for p in ps):
+                continue
+            for p in ps:
+                if p["kind"] == "po":
+                    p["kind"] = "pk"       # a positional-only field cannot be called through Partial (known finding)
+                if p["ty"] == "none" and p["default"] is None:
+                    p["ty"] = "int"
+            return ps
+    a = sig()
+    b = sig()
+    while json.dumps(a, sort_keys=True) == json.dumps(b, sort_keys=True):
+        b = sig()
+    n = rng.choice([2, 2, 3, 4, 5])
+    steps = [[rng.randrange(2), rng.choice(["partial", "partial", "config_for"])] for _ in range(n)]
+    if rng.random() < 0.6:
+        steps[0][0], steps[1][0] = rng.choice([(0, 1), (1, 0)])
+    use = rng.choice([k for k, _ in steps])
+    ps = a if use == 0 else b
+    argv = _gen_argv(rng, [dict(p, ety=_dkind(p["default"]) if p["ty"] == "none" else None) for p in ps], [],
+                     malformed=rng.random() < 0.08)
+    return dict(mode="pair", params=a, params2=b, same_name=rng.random() < 0.75, doc=rng.random() < 0.3, steps=steps, use=use,
+                argv=argv)
+
+
 def _ignore_names(form):
     if form[0] == "absent":
         return []
@@ -403,6 +433,15 @@ def gen(tier, seed):
         cases.append(_gen_main(rng, tier, bool_rate=0.5))
     for _ in range(n_cf):
         cases.append(_gen_cf(rng, tier))
+    # the shape of seeded change C20-02: two factory-made functions with one __name__, both through Partial[...]
+    first = [P("lr", "pk", "float", "0.1"), P("steps", "pk", "int", "10")]
+    second = [P("flag", "pk", "bool", "False"), P("name", "pk", "str", "'bob'"), P("steps", "pk", "int", "3")]
+    for same in (True, False):
+        for use, argv in ((0, ["--lr", "0.5"]), (1, ["--flag", "--name", "zz"])):
+            cases.append(dict(mode="pair", params=first, params2=second, same_name=same, doc=False, use=use, argv=argv,
+                              steps=[[0, "partial"], [0, "partial"], [1, "partial"], [1, "config_for"], [0, "config_for"]]))
+    for _ in range(n_cf // 3):
+        cases.append(_gen_pair(rng, tier))
     return cases
 
 
@@ -441,8 +480,8 @@ def _doc_source(params):
     return "\n".join(lines)
 
 
-def _fn_source(case):
-    params = case["params"]
+def _fn_source(case, params=None):
+    params = case["params"] if params is None else params
     body = "    return [" + ", ".join(f"({p['name']!r}, {p['name']})" for p in params) + "]"
     src = [PRELUDE, f"def _impl({_sig_source(params)}):"]
     if case["doc"]:
@@ -546,6 +585,10 @@ def run_impl(cases):
                             xpos=[_j(v) for v in xp], xkw=[[k, _j(v)] for k, v in xk.items()]))
             continue
 
+        if case["mode"] == "pair":
+            out.append(_run_pair(case, ns, plain, finish))
+            continue
+
         # ---- config_for ----
         from simple_parsing.helpers.partial import config_for
         classes, labels, session_obs, overs = [], [], [], []
@@ -616,6 +659,76 @@ def run_impl(cases):
     return out
 
 
+def _run_pair(case, ns0, plain, finish):
+    import dataclasses
+    import functools
+    import inspect
+
+    import simple_parsing as sp
+    import simple_parsing.helpers.partial as partial_mod
+    from implutil import outcome_of, reset_simple_parsing_state
+
+    partial_mod._autogenerated_config_classes.clear()   # a registry keyed by class NAME, shared by the whole process
+    log = []
+    fns, defaults = [], []
+    for k, params in enumerate((case["params"], case["params2"])):
+        ns = {}
+        exec(compile(_fn_source(case, params), "<c20-pair>", "exec", dont_inherit=True), ns)
+        impl = ns["_impl"]
+
+        def make_stub(impl=impl, k=k):
+            @functools.wraps(impl)
+            def f(*args, **kwargs):
+                log.append((k, [_j(a) for a in args], [[n, _j(v)] for n, v in kwargs.items()]))
+                return impl(*args, **kwargs)
+            return f
+        f = make_stub()
+        if k == 1 and not case["same_name"]:
+            f.__name__ = f.__qualname__ = "_impl_other"
+        fns.append(f)
+        defaults.append({n: (None if p.default is inspect.Parameter.empty else _j(p.default))
+                         for n, p in inspect.signature(impl).parameters.items()})
+    classes, steps_obs, by_callable = [], [], {}
+    for k, via in case["steps"]:
+        f = fns[k]
+        r = outcome_of((lambda: partial_mod.Partial[f]) if via == "partial" else (lambda: partial_mod.config_for(f)))
+        if r[0] != "ok":
+            steps_obs.append(dict(label=_short(r), target=k, fields=[]))
+            by_callable[k] = None
+            continue
+        cls = r[1]
+        for i, c in enumerate(classes):
+            if c is cls:
+                label = i
+                break
+        else:
+            classes.append(cls)
+            label = len(classes) - 1
+        target = getattr(cls, "_target_", None)
+        steps_obs.append(dict(label=["ok", label], target=0 if target is fns[0] else 1 if target is fns[1] else 2,
+                              fields=[[fl.name, None if fl.default is dataclasses.MISSING else _j(fl.default)]
+                                      for fl in dataclasses.fields(cls)]))
+        by_callable[k] = cls
+    use = case["use"]
+    params = case["params"] if use == 0 else case["params2"]
+    req = dict(ignore=["absent"], frozen=None, over=[])
+    kept = [dict(p, eq_ann=_inferred(p, [])) for p in _cf_kept(params, req)]
+    expected = plain(kept, False, case["argv"])
+    base = dict(defaults=defaults[0], defaults2=defaults[1], expected=expected, steps=steps_obs, xpos=[], xkw=[], inferred=[])
+    cls = by_callable.get(use)
+    if cls is None:
+        last = [o for (k, _), o in zip(case["steps"], steps_obs) if k == use][-1]
+        return dict(base, ncalls=0, call=None, called=None, result=last["label"])
+    reset_simple_parsing_state()
+
+    def go():
+        obj = sp.parse(cls, args=list(case["argv"]), dest="args", add_config_path_arg=False)
+        return obj()
+    r = finish(outcome_of(go))
+    return dict(base, ncalls=len(log), call=dict(pos=log[-1][1], kw=log[-1][2]) if log else None,
+                called=log[-1][0] if log else None, result=r)
+
+
 def _call(log):
     if not log:
         return None
@@ -655,8 +768,49 @@ def py_spec(case, obs):
         if sorted(obs["call"]["kw"]) != want_kw:
             return f"keyword arguments {obs['call']['kw']} != {want_kw}"
         return None
-    # ---- config_for ----
-    sess = case["session"]
+    if case["mode"] == "pair":
+        return _pair_spec(case, obs)
+    return _cf_spec(params, case["session"], obs)
+
+
+def _pair_spec(case, obs):
+    steps = case["steps"]
+    so = obs["steps"]
+    for i in range(len(steps)):
+        for j in range(i + 1, len(steps)):
+            if so[i]["label"][0] == "ok" and so[j]["label"][0] == "ok":
+                same_callable = steps[i][0] == steps[j][0]
+                same_class = so[i]["label"][1] == so[j]["label"][1]
+                if same_callable and not same_class:
+                    return f"the same callable got two different classes (steps {i} and {j}: {steps[i]}, {steps[j]})"
+                if same_class and not same_callable:
+                    return f"two different callables share one config class (steps {i} and {j}: {steps[i]}, {steps[j]})"
+    plain = dict(ignore=["absent"], frozen=None, over=[])
+    last = None
+    for (k, via), o in zip(steps, so):
+        params = case["params"] if k == 0 else case["params2"]
+        if o["label"][0] != "ok":
+            return f"deriving the config class of callable {k} via {via} ends with {o['label']}"
+        if o["target"] != k:
+            return f"the class derived for callable {k} via {via} targets callable {o['target']}"
+        r = _cf_spec(params, [plain], dict(session=[o["label"]], fields=["ok", o["fields"]], overs=[[]], inferred=[],
+                                           defaults=obs["defaults"] if k == 0 else obs["defaults2"]), check_call=False)
+        if r:
+            return f"class derived for callable {k} via {via}: {r}"
+        if k == case["use"]:
+            last = o
+    params = case["params"] if case["use"] == 0 else case["params2"]
+    r = _cf_spec(params, [plain], dict(obs, session=[last["label"]], fields=["ok", last["fields"]], overs=[[]], inferred=[],
+                                       defaults=obs["defaults"] if case["use"] == 0 else obs["defaults2"]))
+    if r:
+        return r
+    if obs["call"] is not None and obs["called"] != case["use"]:
+        return f"calling the object parsed for callable {case['use']} invoked callable {obs['called']}"
+    return None
+
+
+def _cf_spec(params, sess, obs, check_call=True):
+    exp = obs.get("expected")
     for i in range(len(sess)):
         for j in range(i + 1, len(sess)):
             if _req_equal(sess[i], sess[j]) and obs["session"][i][0] == "ok" and obs["session"][j][0] == "ok" \
@@ -687,6 +841,8 @@ def py_spec(case, obs):
     for n, t in obs["inferred"]:
         if t != _spec_ity(kinds[n]):
             return f"inferred type of the un-annotated parameter {n}={pnames[n]['default']} is {t}, its default is a {kinds[n]}"
+    if not check_call:
+        return None
     if exp[0] != "ok":
         if obs["result"] != exp or obs["call"] is not None:
             return f"the plain parse ends with {exp}, parsing the config class / calling ends with {obs['result']}"
@@ -728,10 +884,18 @@ def signature(case, obs, reason):
     params = case["params"]
     res = obs["result"]
     tag = "main" if case["mode"] == "main" else "config_for"
+    if "share one config class" in reason or "targets callable" in reason or "invoked callable" in reason:
+        return "partial:class-of-another-callable"
+    if "the same callable got two different classes" in reason:
+        return "partial:uncached"
+    if case["mode"] == "pair":
+        tag = "config_for"
+        if reason.startswith("class derived for callable"):
+            return "partial:wrong-fields"
     if reason.startswith("inferred type"):
         return f"{tag}:wrong-inferred-type"
     if "two different classes" in reason:
-        lists = any(r["ignore"][0] == "list" for r in case["session"])
+        lists = any(r["ignore"][0] == "list" for r in case.get("session", []))
         return f"{tag}-uncached:" + ("unhashable-ignore_args" if lists else "hashable-args")
     if obs["call"] is None and res[0] == "raise":
         if res[1] == "ValueError" and any(p["mut"] for p in params):
@@ -765,6 +929,11 @@ def features(case, obs):
          "has_mutable_default": any(p["mut"] for p in params)}
     for p in params:
         f["ty_" + p["ty"]] = True
+    if case["mode"] == "pair":
+        f["same_name"] = case["same_name"]
+        f["steps"] = len(case["steps"])
+        for k, via in case["steps"]:
+            f["via_" + via] = True
     if case["mode"] == "cf":
         f["ignore_form"] = case["session"][0]["ignore"][0]
         f["call_site_kwargs"] = len(case["call_kw"])
@@ -806,14 +975,30 @@ def _city(t):
     return "IFail" if t == "IFail" else f"(IB {t})"
 
 
-def to_coq(case, obs):
+def _params_coq(params, defaults):
     ps = []
-    for p in case["params"]:
-        d = obs["defaults"].get(p["name"])
+    for p in params:
+        d = defaults.get(p["name"])
         ps.append(f"mkparam {cstr(p['name'])} {KIND_COQ[p['kind']]} {ANN_COQ[p['ty']]} {copt(cstr(d)) if d is not None else 'None'} "
                   f"{cbool(p['mut'])}")
+    return ps
+
+
+def _fields_coq(flds):
+    return clist([cpair(cstr(n), copt(cstr(d)) if d is not None else "None") for n, d in flds])
+
+
+def to_coq(case, obs):
+    ps = _params_coq(case["params"], obs["defaults"])
     call = "None" if obs["call"] is None else f"(Some (mkcall {clist([cstr(v) for v in obs['call']['pos']])} {_kv(obs['call']['kw'])}))"
-    if case["mode"] == "main":
+    pair = "None"
+    if case["mode"] == "pair":
+        pos = clist([f"(mkpo {outcome(['ok', cnat(o['label'][1])]) if o['label'][0] == 'ok' else outcome(o['label'])} "
+                     f"{cnat(o['target'])} {_fields_coq(o['fields'])})" for o in obs["steps"]])
+        called = "None" if obs["called"] is None else f"(Some {cnat(obs['called'])})"
+        pair = (f"(Some (mkpi {clist(_params_coq(case['params2'], obs['defaults2']))} "
+                f"{clist([cnat(k) for k, _ in case['steps']])} {cnat(case['use'])} {pos} {called}))")
+    if case["mode"] in ("main", "pair"):
         reqs, sess, flds = "[]", "[]", "(Ok [])"
     else:
         reqs = clist([_req(r, o) for r, o in zip(case["session"], obs["overs"])])
@@ -827,10 +1012,19 @@ def to_coq(case, obs):
     inferred = clist([cpair(cstr(n), _city(t)) for n, t in obs.get("inferred", [])])
     return (f"mkcase {cbool(case['mode'] == 'main')} {clist(ps)} {_res_bind(obs['expected'])} "
             f"{clist([cstr(v) for v in obs['xpos']])} {_kv(obs['xkw'])} {reqs} {sess} {flds} {call} {_res_bind(obs['result'])} "
-            f"{untyped} {inferred}")
+            f"{untyped} {inferred} {pair}")
 
 
 def shrink(case):
+    if case["mode"] == "pair":
+        steps = case["steps"]
+        for i in range(len(steps)):
+            rest = steps[:i] + steps[i + 1:]
+            if any(k == case["use"] for k, _ in rest):
+                yield dict(case, steps=rest)
+        if case["argv"]:
+            yield dict(case, argv=[])
+        return
     params = case["params"]
     for i in range(len(params)):
         name = params[i]["name"]
